@@ -30,7 +30,9 @@ EXPLANATION = ('Lookup keys of the zip, VPK and in-memory backends proved equal 
                'has the (prefix-joined) name. Zip and VPK walk_folder: the statements before the loop plus one arbitrary '
                'iteration are proved to list a table entry exactly when its key lies inside the normal form of the folder '
                '(all entries for the empty folder), once, as that entry; likewise the in-memory walk_folder, where folders '
-               'spelled with separators only or as "." mean everything. Directory and chain walks, byte equality between backends, de-duplicated chain walks '
+               'spelled with separators only or as "." mean everything. The de-duplicating loop of FileSystemChain.walk_folder is proved per file: listed exactly when no '
+               'spelling of its folded name was listed before, and the set of listed names grows by exactly that name. '
+               'Directory walks, walk_folder_repeat (relpath), byte equality between backends, de-duplicated chain walks '
                'and subfolder-relative naming are decided by the bounded differential stand-in over generated file sets.')
 TRUSTED = ['str.casefold as an uninterpreted idempotent function',
            'library summary: str.strip(chars) / str.rstrip(c) = the unique middle / left part (regular-expression axioms)', 'zipfile / VPK container I/O (C13)',
@@ -39,7 +41,7 @@ TRUSTED = ['str.casefold as an uninterpreted idempotent function',
            'VirtualFileSystem.__init__: the comprehension is checked by shape (key = _clean_path(stored name), value = '
            '(stored name, data), no filter), not executed symbolically; later keys overwriting earlier equal ones is '
            'Python dict semantics']
-UNVERIFIED = ['walk_folder of the directory backend, FileSystemChain.walk_folder* (bounded only)',
+UNVERIFIED = ['walk_folder of the directory backend, FileSystemChain.walk_folder_repeat with os.path.relpath (bounded only)',
               'that dict.items() visits every entry once (Python semantics; the walk lemmas are per entry)', 'host file-system case sensitivity for RawFileSystem']
 
 from pyvc.builtins_model import fold_fn, replace_all   # noqa: E402
@@ -491,6 +493,48 @@ def the_listed_file_has_the_stored_name(YIELDED, STORED, FS):
     return yielded_names_are(YIELDED, STORED, FS)
 
 
+# ---- de-duplicated chain walk: one arbitrary iteration over a symbolic set of names already listed
+chain_walk = REG.add(_Lemma('FileSystemChain.walk_folder.one_file', PROP,
+                            [{'body': f'{M}:FileSystemChain.walk_folder', 'loop': 0, 'closure': {'__yielded__': 'YIELDED'}}],
+                            inline=()))
+
+
+@chain_walk.setup
+def _(h):
+    done = h.set_of('done', z3.StringSort())
+    path = h.str('path')
+    f = Obj('File', dict(path=path, sys=None, _data=None), module=M)
+    return {'locals': {'done': done, 'file': f, 'YIELDED': []},
+            'ghost': dict(DONE0=done.expr, PATH=path, FILE=f)}
+
+
+@native
+def was_listed(I, DONE0, path):
+    return z3.Select(DONE0, fold_fn()(to_z3(path)))
+
+
+@native
+def now_listed_are(I, done, DONE0, path):
+    """the set after the iteration is the set before plus the folded name -- nothing else enters, nothing leaves"""
+    return to_z3(done.expr) == z3.Store(DONE0, fold_fn()(to_z3(path)), z3.BoolVal(True))
+
+
+@native
+def only_that_file(I, YIELDED, FILE):
+    return all(f is FILE for f in YIELDED)
+
+
+@chain_walk.ensures
+def a_file_is_listed_exactly_when_no_spelling_of_its_name_was_listed_before(DONE0, PATH, YIELDED, FILE):
+    return (iff(n_yielded(YIELDED) == 1, not was_listed(DONE0, PATH)) and n_yielded(YIELDED) <= 1
+            and only_that_file(YIELDED, FILE))
+
+
+@chain_walk.ensures
+def the_names_listed_so_far_grow_by_exactly_this_one(done, DONE0, PATH):
+    return now_listed_are(done, DONE0, PATH)
+
+
 # ---- every use of the in-memory table goes through the one key function (constructor, lookups, opens)
 def _shape(name, good, bad=False, line=0, note=''):
     r = smt.shape(name, good, bad, line, note)
@@ -556,7 +600,7 @@ def static_virtual_table(repo):
 
 
 STATIC = [static_virtual_table]
-PROOFS = [zip_exists, zip_get, vpk_exists, vpk_get, virt_exists, virt_get, zip_walk, vpk_walk, virt_walk, chain_get, chain_add]
+PROOFS = [zip_exists, zip_get, vpk_exists, vpk_get, virt_exists, virt_get, zip_walk, vpk_walk, virt_walk, chain_walk, chain_get, chain_add]
 
 
 # ------------------------------------------------------------------------------------------------ bounded differential
@@ -936,8 +980,19 @@ MUTATIONS = [
          old="            if clean_name.startswith(prefix):",
          new="            if filename.startswith(prefix):",
          expect='VirtualFileSystem.walk_folder.one_entry'),
+    dict(name='chain_dedup_checks_the_raw_spelling', file='filesys.py',
+         old="            if folded in done:\n                continue\n            done.add(folded)",
+         new="            if file.path in done:\n                continue\n            done.add(folded)",
+         expect='FileSystemChain.walk_folder.one_file'),
+    dict(name='chain_dedup_records_only_nested_names', file='filesys.py',
+         old="            if folded in done:\n                continue\n            done.add(folded)",
+         new="            if folded in done:\n                continue\n            if '/' in folded:\n                done.add(folded)",
+         expect='FileSystemChain.walk_folder.one_file'),
 ]
 HARMLESS = [
+    dict(name='chain_dedup_else_branch', file='filesys.py',
+         old="            if folded in done:\n                continue\n            done.add(folded)\n            yield file",
+         new="            if folded not in done:\n                done.add(folded)\n                yield file"),
     dict(name='vpk_walk_prefix_renamed', file='filesys.py',
          old="        prefix = folder + '/' if folder else ''  # Whole path components only, compared case-insensitively.\n        for name, file in self._name_to_file.items():\n            if name.startswith(prefix):",
          new="        start = folder + '/' if folder else ''\n        for name, file in self._name_to_file.items():\n            if name.startswith(start):"),
